@@ -582,6 +582,23 @@ _CMPOPS = {
 _SAFE_NATIVE = (str, dict, list, tuple, set, range, type(None), int, bool)
 
 
+def _entry(method):
+    """public entry points activate this interpreter's oracle for Cond.__bool__"""
+    import functools
+
+    @functools.wraps(method)
+    def wrapper(self, *a, **k):
+        if Cond.oracle is not None and getattr(Cond.oracle, "__self__", None) is self:
+            return method(self, *a, **k)
+        prev = Cond.oracle
+        Cond.oracle = self._ask1
+        try:
+            return method(self, *a, **k)
+        finally:
+            Cond.oracle = prev
+    return wrapper
+
+
 class Env:
     def __init__(self, module: Module, func: Func | None):
         self.module, self.func, self.vars = module, func, {}
@@ -610,16 +627,21 @@ class Interp:
         if text not in self.assumptions:
             self.assumptions.append(text)
 
+    def _ask1(self, cond):
+        return self.ask(cond)
+
     def ask(self, cond, kind=bool):
         cond.text = self.test_text[-1] if self.test_text else None
         v = None
+        was_generic = False
         if self.user_oracle is not None:
             v = self.user_oracle(cond, self)
         if v is None and kind is bool:
             v = self.generic(cond)
+            was_generic = v is not None and cond.op in ("isclose", "==", "!=", "nonzero")
         if v is None:
             raise Undecided(cond)
-        self.decisions.append((cond.op, cond.text, v))
+        self.decisions.append((cond, v, was_generic))
         return v
 
     def generic(self, cond):
@@ -649,17 +671,14 @@ class Interp:
         return u if r == 0 else v
 
     # -- running
+    @_entry
     def run(self, func: Func, args=(), kwargs=None, self_obj=None):
         """interpret ``func``; returns its value.  Raises Raised/Unsupported/Undecided."""
-        prev = Cond.oracle
-        Cond.oracle = lambda c: self.ask(c)
-        try:
-            if self_obj is not None:
-                args = (self_obj,) + tuple(args)
-            return self.call_func(func, list(args), dict(kwargs or {}))
-        finally:
-            Cond.oracle = prev
+        if self_obj is not None:
+            args = (self_obj,) + tuple(args)
+        return self.call_func(func, list(args), dict(kwargs or {}))
 
+    @_entry
     def call_func(self, func: Func, args, kwargs):
         key = func.ref
         if key in self.intercepts:
@@ -1165,6 +1184,7 @@ class Interp:
     _ARR_METHODS = {"trace", "flatten", "copy", "transpose", "reshape", "tolist", "ravel", "squeeze", "dot",
                     "sum", "swapaxes", "prod", "repeat", "take"}
 
+    @_entry
     def getattr(self, v, name, env):
         if isinstance(v, Obj):
             if name in v.attrs:
@@ -1516,6 +1536,7 @@ class Interp:
         f = self.eval(fnode, env)
         return self.call_value(f, args, kwargs, node, env)
 
+    @_entry
     def call_value(self, f, args, kwargs, node=None, env=None):
         if isinstance(f, Func):
             if self.is_skippable(f):
@@ -1561,6 +1582,7 @@ class Interp:
             return True
         return False
 
+    @_entry
     def instantiate(self, cls: Class, args, kwargs):
         key = cls.ref
         if key in self.intercepts:
@@ -1628,11 +1650,13 @@ def is_validator(f: Func) -> bool:
 
 # --------------------------------------------------------------------------- symbolic inputs
 
-def sym_vec(prefix, n, names=None):
+def sym_vec(prefix, n, names=None, sub=None):
+    """vector of fresh symbols; ``sub`` maps symbol name -> constant (degenerate-arm exploration)"""
     names = names or [str(i) for i in range(n)]
     out = np.empty((n,), dtype=object)
     for i in range(n):
-        out[i] = P.sym("%s%s" % (prefix, names[i]))
+        nm = "%s%s" % (prefix, names[i])
+        out[i] = P.const(sub[nm]) if sub and nm in sub else P.sym(nm)
     return out
 
 
